@@ -374,11 +374,13 @@ class PFDLTreeVisitor(PFDLParserVisitor):
             if isinstance(ele, List):
                 return ele
             elif not helpers.is_string(ele):
-                # strings should not appear here
                 casted_element = helpers.cast_element(ele)
                 # check if ele is a primitve datatype (number or bool)
                 if casted_element != ele:
                     return casted_element
+            else:
+                # a string literal as whole expression: keep it, the checker reports it
+                return ele
         if length == 2:
             un_op = self.get_content(ctx.children[0])
             ele = self.get_content(ctx.children[1])
